@@ -675,6 +675,15 @@ func (ev *evalCtx) addr(e ast.Expr) (string, types.Type, error) {
 	switch x := e.(type) {
 	case *ast.ParenExpr:
 		return ev.addr(x.X)
+	case *ast.Ident:
+		// an address-taken local: the environment records its location under "&name"
+		if _, bound := ev.bound[x.Name]; !bound {
+			if a, ok := ev.env["&"+x.Name]; ok {
+				if pt, ok := a.typ.Underlying().(*types.Pointer); ok {
+					return a.term, pt.Elem(), nil
+				}
+			}
+		}
 	case *ast.StarExpr:
 		p, pt, err := ev.expr(x.X, nil)
 		if err != nil {
